@@ -60,6 +60,12 @@ def wire_hdr(cfg: dict, direction: str, seq: int, mode: str | None = None) -> di
                 dv=cfg["dId"], qw=cfg["seqW"], qv=seq)
 
 
+def _other(hdr: dict, k: str) -> int:
+    """A value of header field k different from the current one that still fits the field width."""
+    w = hdr[{"sv": "sw", "dv": "dw", "qv": "qw"}[k]]
+    return hdr[k] + 1 if hdr[k] + 1 < 256 ** w else hdr[k] - 1
+
+
 # --------------------------------------------------------------------------------------------------
 def drive_src_random(rng: random.Random, tid: int, default_fh: bool = True, **fixed) -> dict:
     """A lone SourceHandler fed adversarial inputs: any PDU kind, ids, directions, NAK ranges, clock jumps,
@@ -104,7 +110,7 @@ def drive_src_random(rng: random.Random, tid: int, default_fh: bool = True, **fi
             if k == "dir":
                 hdr["dir"] = "TR"
             else:
-                hdr[k] = hdr[k] + 1
+                hdr[k] = _other(hdr, k)
         if r < 0.40:
             w.call("S", "fsm", None, take=take)
         elif r < 0.50:
@@ -196,7 +202,7 @@ def drive_dst_random(rng: random.Random, tid: int, default_fh: bool = True, **fi
             if k == "dir":
                 h["dir"] = "TS"
             else:
-                h[k] = h[k] + 1
+                h[k] = _other(h, k)
         if r < 0.18:
             w.call("D", "fsm", None, take=take)
         elif r < 0.30:
@@ -240,3 +246,12 @@ def drive_dst_random(rng: random.Random, tid: int, default_fh: bool = True, **fi
     tr = w.trace(tid, "dst")
     w.cleanup()
     return tr
+
+
+# ---- entry points for harness/flow.py (seeded, keyword-only) ----
+def src_random(tid: int, seed: int, default_fh: bool = True, **fixed) -> dict:
+    return drive_src_random(random.Random(seed), tid, default_fh, **fixed)
+
+
+def dst_random(tid: int, seed: int, default_fh: bool = True, **fixed) -> dict:
+    return drive_dst_random(random.Random(seed), tid, default_fh, **fixed)
